@@ -52,7 +52,7 @@ Definition target_y (enc : rawcol -> option encoded) (cols : list (name * rawcol
 Definition rawcol_ok (c : rawcol) : Prop :=
   match c with
   | RCat cats _ => NoDup cats
-  | RMulti cats sep cells => NoDup cats /\ ~ In (VInt (-1)) cats /\ Forall (tokens_ok sep) cells
+  | RMulti dt cats sep cells => dt = true /\ NoDup cats /\ ~ In (VInt (-1)) cats /\ Forall (tokens_ok sep) cells
   | REmb cells | RTextEmb cells | RImageEmb cells => exists w, Forall (fun v => length v = w) cells
   | _ => True
   end.
@@ -66,12 +66,15 @@ Definition canonical_col (c : rawcol) (col : list ecell) : Prop :=
   match c with
   | RNum cells => col = map canon_num cells
   | RCat cats cells => col = map (canon_cat cats) cells
-  | RMulti cats sep cells => mapM (canon_multi cats sep) cells = Some (map sort_cell col)
+  | RMulti _ cats sep cells => mapM (canon_multi cats sep) cells = Some (map sort_cell col)
   | RSeq cells => mapM canon_seq cells = Some col
   | RTime cells => col = map canon_time cells
   | REmb cells | RTextEmb cells | RImageEmb cells => col = map canon_vec cells
   | RTok _ => True
   end.
+
+(* reflexivity is all the theorems need of the label equality *)
+Definition leqb_refl {L} (leqb : L -> L -> bool) : Prop := forall a, leqb a a = true.
 
 (* equality of TensorFrames as dictionaries (key order is not observable through ==) *)
 Definition tf_equiv (t t' : tensor_frame) : Prop :=
